@@ -162,10 +162,10 @@ def extract(repo=REPO, config="default"):
         with open(os.path.join(out, "COMPLETE"), "w") as fh:
             json.dump({"run": run_id, "bodies": seen, "wall_s": time.time() - t0, "tree": th}, fh)
         log("done in %.1fs" % (time.time() - t0), seen)
-        # prune old fact dirs (keep 4 most recent)
+        # prune old fact dirs (keep 40 most recent: the thorough tier analyses many scratch copies)
         root = os.path.join(CACHE, "facts")
         ds = sorted((os.path.getmtime(os.path.join(root, d)), d) for d in os.listdir(root))
-        for _, d in ds[:-4]:
+        for _, d in ds[:-40]:
             shutil.rmtree(os.path.join(root, d), ignore_errors=True)
         return out
     finally:
